@@ -161,7 +161,9 @@ def lexPredicateGo (T : LexTables K) : List Rune → List Rune → LStep K
   | acc, r :: t =>
     if r.cp == 92 then
       match t with
-      | n :: t' => if n.cp == 34 then lexPredicateGo T (n :: r :: acc) t' else lexPredicateGo T (r :: acc) (n :: t')
+      | n :: t' =>
+        -- a backslash escapes a following quote or backslash (the ID is printed with %q)
+        if n.cp == 34 || n.cp == 92 then lexPredicateGo T (n :: r :: acc) t' else lexPredicateGo T (r :: acc) (n :: t')
       | [] => lexPredicateGo T (r :: acc) []
     else if r.cp == 34 then
       match consumePat [34, 64, 91] acc (r :: t) with
